@@ -179,22 +179,19 @@ impl BufferManager {
         size: usize,
         region: MemoryRegion,
     ) -> Option<MemoryGrant> {
-        // Check if we can allocate
-        let current = self.allocated.load(Ordering::Relaxed);
-
-        if current + size > self.hard_limit {
+        // Reserve atomically: the limit check and the increment are one step, so concurrent
+        // callers can never push the total above the hard limit (and `current + size`
+        // cannot overflow).
+        if !self.try_reserve(size) {
             // Try eviction first
             self.run_eviction_cycle(true);
 
             // Check again
-            let current = self.allocated.load(Ordering::Relaxed);
-            if current + size > self.hard_limit {
+            if !self.try_reserve(size) {
                 return None;
             }
         }
 
-        // Perform allocation
-        self.allocated.fetch_add(size, Ordering::Relaxed);
         self.region_allocated[region.index()].fetch_add(size, Ordering::Relaxed);
 
         // Check pressure and potentially trigger background eviction
@@ -205,6 +202,17 @@ impl BufferManager {
             size,
             region,
         ))
+    }
+
+    /// Adds `size` to the allocation counter if the result stays within the hard limit.
+    fn try_reserve(&self, size: usize) -> bool {
+        self.allocated
+            .fetch_update(Ordering::Relaxed, Ordering::Relaxed, |current| {
+                current
+                    .checked_add(size)
+                    .filter(|&total| total <= self.hard_limit)
+            })
+            .is_ok()
     }
 
     /// Returns the current pressure level.
